@@ -60,6 +60,26 @@ class C12Machine(RuleBasedStateMachine):
     def fd_pwrite(self, fd, bufs, offset):
         self.ex.fd_pwrite(fd, bufs, offset)
 
+    @rule(fd=fds, n=st.sampled_from([1000, 1023, 1024, 1025, 1026, 1100, 2048, 2049, 3000]), every=st.integers(1, 9),
+          how=st.sampled_from(['write', 'pwrite', 'read', 'pread']), offset=st.sampled_from([0, 1, 7, 100, 5000]))
+    def many_vectors(self, fd, n, every, how, offset):
+        # scatter/gather lists around and beyond the host's IOV_MAX (1024): most segments empty, every `every`-th one a single
+        # byte, so the transfer itself is small.  The corresponding readv / writev / preadv / pwritev call decides (EINVAL above the
+        # limit), and nothing is transferred in that case
+        self.ex.flags.add('vector_count_around_IOV_MAX')
+        if how in ('write', 'pwrite'):
+            bufs = [bytes([0x41 + i % 26]) if i % every == 0 else b'' for i in range(n)]
+            if how == 'write':
+                self.ex.fd_write(fd, bufs)
+            else:
+                self.ex.fd_pwrite(fd, bufs, offset)
+        else:
+            lens = [1 if i % every == 0 else 0 for i in range(n)]
+            if how == 'read':
+                self.ex.fd_read(fd, lens)
+            else:
+                self.ex.fd_pread(fd, lens, offset)
+
     @rule(fd=fds, lens=LENS)
     def fd_read(self, fd, lens):
         self.ex.fd_read(fd, lens)
